@@ -576,13 +576,21 @@ func (g *gen) sFenv(fc *fctx) []Stmt {
 		&Local{Names: []string{inner}, Exprs: []Expr{Func{innerDef}}},
 		&Return{Exprs: []Expr{Var{gv}, Var{inner}}},
 	}
+	byLevel := g.ch(3) == 0
+	if byLevel {
+		// the function changes its own environment: setfenv(1, env) as its first statement
+		g.use("fenv_level")
+		body = append([]Stmt{&Call{Fn: Var{"setfenv"}, Args: []Expr{Num{1}, Var{env}}}}, body...)
+	}
 	feDef := &FuncDef{ID: g.prog.NFuncs, Body: body}
 	out := []Stmt{
 		&Assign{Targets: []Expr{Var{gv}}, Exprs: []Expr{Num{float64(100 + g.ch(5))}}}, // the real global of that name
 		&Local{Names: []string{env}, Exprs: []Expr{TableCons{Keys: []string{gv}, Vals: []Expr{Num{float64(g.ch(9))}}}}},
 		&Local{Names: []string{fe}, Exprs: []Expr{Func{feDef}}},
 	}
-	if g.ch(2) == 0 {
+	if byLevel {
+		// nothing to do before the call
+	} else if g.ch(2) == 0 {
 		out = append(out, &Call{Fn: Var{"setfenv"}, Args: []Expr{Var{fe}, Var{env}}})
 	} else {
 		// setfenv(1, env) from inside a helper would change the helper; use the function form twice instead
@@ -620,7 +628,27 @@ func (g *gen) coBody(fc *fctx) (string, *fnSig, []Stmt) {
 		for _, v := range vs {
 			ps = append(ps, Var{v.name})
 		}
-		return []Stmt{&Call{Fn: Var{"emit"}, Args: append([]Expr{Str{name}}, ps...)}}
+		out := []Stmt{&Call{Fn: Var{"emit"}, Args: append([]Expr{Str{name}}, ps...)}}
+		if g.feat("selfstatus") {
+			// remember the running coroutine; report the status of every enclosing coroutine that is
+			// visible from here: own -> running, the resumer up the chain -> normal, others -> suspended/dead
+			g.use("selfstatus")
+			me := g.fresh("me")
+			selfs := g.visible(func(v *varInfo) bool { return v.k == kSelf })
+			out = append(out, &Call{Names: []string{me}, Fn: Var{"corunning"}})
+			g.declare(&varInfo{name: me, k: kSelf, fnLevel: fc2.level})
+			args := []Expr{Str{"self"}}
+			for i, sv := range append([]*varInfo{{name: me}}, selfs...) {
+				if i >= 3 {
+					break
+				}
+				stn := g.fresh("ss")
+				out = append(out, &Call{Names: []string{stn}, Fn: Var{"costatus"}, Args: []Expr{Var{sv.name}}})
+				args = append(args, Var{stn})
+			}
+			out = append(out, &Call{Fn: Var{"emit"}, Args: args})
+		}
+		return out
 	}
 	// the body: statements interleaved with yields
 	fd := &FuncDef{}
